@@ -91,4 +91,17 @@ def cycle : Exec Unit := do
   | some p => dispatch p.idx (p.extract opcode.toNat expansion.toNat)
   interruptCheck
 
+/-- `core_timing.Tick()` at the end of a loop iteration: every peripheral advances one cycle;
+interrupts they raise reach the core latches. -/
+def tickAll : Exec Unit := do
+  let c ← get
+  match c.bus.tick with
+  | .ok (bus, evs) => set (({ c with bus := bus } : Core).emit evs)
+  | .error e => abort e
+
+/-- One full iteration of the `Run` loop without fast-forward: body, then `Tick`. -/
+def cycleTick : Exec Unit := do
+  cycle
+  tickAll
+
 end Teakra
